@@ -501,64 +501,147 @@ func (w *guardWalker) expr(e ast.Expr, f Facts) {
 	}
 }
 
-// localDefs collects single-assignment locals of a function: name -> defining expression. Range value variables are
-// defined as an index expression into the ranged operand (`for k, v := range m` gives v = m[k]).
-func localDefs(fn ast.Node) map[string]ast.Expr {
-	defs := map[string]ast.Expr{}
-	count := map[string]int{}
+// defEntry is one definition of a local with the source range in which it is visible.
+type defEntry struct {
+	expr   ast.Expr
+	lo, hi token.Pos
+}
+
+// Defs maps a local name to its definitions (same name may be defined in several disjoint scopes).
+type Defs map[string][]defEntry
+
+func (d Defs) lookup(name string, pos token.Pos) (ast.Expr, bool) {
+	var best *defEntry
+	for i := range d[name] {
+		e := &d[name][i]
+		if e.lo <= pos && pos < e.hi {
+			if best == nil || e.lo > best.lo {
+				best = e
+			}
+		}
+	}
+	if best == nil || best.expr == nil {
+		return nil, false
+	}
+	return best.expr, true
+}
+
+// localDefs collects the locals of a function that are assigned exactly once within their scope: name -> defining
+// expression. Range value variables are defined as an index expression into the ranged operand
+// (`for k, v := range m` gives v = m[k]).
+func localDefs(fn ast.Node) Defs {
+	defs := Defs{}
+	var stack []ast.Node
+	scopeEnd := func() token.Pos {
+		for i := len(stack) - 1; i >= 0; i-- {
+			switch b := stack[i].(type) {
+			case *ast.BlockStmt:
+				return b.End()
+			case *ast.CaseClause:
+				return b.End()
+			case *ast.CommClause:
+				return b.End()
+			}
+		}
+		return fn.End()
+	}
+	add := func(name string, e ast.Expr, lo, hi token.Pos) {
+		if name == "_" {
+			return
+		}
+		defs[name] = append(defs[name], defEntry{e, lo, hi})
+	}
+	type reassign struct {
+		name string
+		pos  token.Pos
+	}
+	var re []reassign
 	ast.Inspect(fn, func(n ast.Node) bool {
+		if n == nil {
+			stack = stack[:len(stack)-1]
+			return true
+		}
 		switch x := n.(type) {
 		case *ast.AssignStmt:
+			// an if/for/switch init statement is visible in the whole statement
+			hi := scopeEnd()
+			if len(stack) > 0 {
+				switch p := stack[len(stack)-1].(type) {
+				case *ast.IfStmt:
+					if p.Init == ast.Stmt(x) {
+						hi = p.End()
+					}
+				case *ast.ForStmt:
+					if p.Init == ast.Stmt(x) {
+						hi = p.End()
+					}
+				case *ast.SwitchStmt:
+					if p.Init == ast.Stmt(x) {
+						hi = p.End()
+					}
+				}
+			}
 			for i, l := range x.Lhs {
 				id, ok := l.(*ast.Ident)
-				if !ok || id.Name == "_" {
+				if !ok {
 					continue
 				}
-				count[id.Name]++
 				if x.Tok == token.DEFINE {
+					var e ast.Expr
 					if len(x.Rhs) == len(x.Lhs) {
-						defs[id.Name] = x.Rhs[i]
+						e = x.Rhs[i]
 					} else if len(x.Rhs) == 1 && i == 0 {
-						defs[id.Name] = x.Rhs[0] // v, ok := m[k]
+						e = x.Rhs[0] // v, ok := m[k]
 					}
+					add(id.Name, e, x.End(), hi)
+				} else {
+					re = append(re, reassign{id.Name, x.Pos()})
 				}
 			}
 		case *ast.IncDecStmt:
 			if id, ok := x.X.(*ast.Ident); ok {
-				count[id.Name]++
+				re = append(re, reassign{id.Name, x.Pos()})
 			}
 		case *ast.RangeStmt:
-			if id, ok := x.Value.(*ast.Ident); ok && id.Name != "_" {
-				count[id.Name]++
-				var key ast.Expr = ast.NewIdent("_")
-				if x.Key != nil {
-					key = x.Key
+			if x.Tok == token.DEFINE {
+				if id, ok := x.Value.(*ast.Ident); ok {
+					var key ast.Expr = ast.NewIdent("_")
+					if x.Key != nil {
+						key = x.Key
+					}
+					add(id.Name, &ast.IndexExpr{X: x.X, Index: key}, x.Body.Pos(), x.Body.End())
 				}
-				defs[id.Name] = &ast.IndexExpr{X: x.X, Index: key}
-			}
-			if id, ok := x.Key.(*ast.Ident); ok && id.Name != "_" {
-				count[id.Name]++
+				if id, ok := x.Key.(*ast.Ident); ok {
+					add(id.Name, nil, x.Body.Pos(), x.Body.End())
+				}
 			}
 		}
+		stack = append(stack, n)
 		return true
 	})
-	for n, c := range count {
-		if c != 1 {
-			delete(defs, n)
+	// a definition that is re-assigned within its scope is not a stable alias
+	for _, r := range re {
+		for i := range defs[r.name] {
+			e := &defs[r.name][i]
+			if e.lo <= r.pos && r.pos < e.hi {
+				e.expr = nil
+			}
 		}
 	}
 	return defs
 }
 
 // expand substitutes single-assignment locals by their definitions (bounded depth).
-func expand(e ast.Expr, defs map[string]ast.Expr, depth int) ast.Expr {
+func expand(e ast.Expr, defs Defs, depth int) ast.Expr {
 	if depth > 6 || e == nil {
 		return e
 	}
 	switch x := e.(type) {
 	case *ast.Ident:
-		if d, ok := defs[x.Name]; ok {
-			return expand(d, defs, depth+1)
+		if x.Pos().IsValid() {
+			if d, ok := defs.lookup(x.Name, x.Pos()); ok {
+				return expand(d, defs, depth+1)
+			}
 		}
 		return x
 	case *ast.ParenExpr:
